@@ -4,7 +4,8 @@
      [e |-> "begin", t]                                    a new stream (one muxer run)
      [e |-> "pkt", pid, pusi, cc, af, aflen, rai, pcrf, pcr, paylen, sync, size]
      [e |-> "psi", what, ok, ...]                          PAT / PMT as decoded (CRC verified by the demultiplexer)
-     [e |-> "pes", pid, sid, peslen, total, pts, dts, hasdts, wantpts, wantdts, key, intact, prefix, rai, pcrf, pcr]
+     [e |-> "pes", pid, sid, peslen, total, pts, dts, hasdts, wantpts, wantdts, key, intact, prefix, rai, pcrf, pcr, pcr_ok]
+        (33-bit time values are decimal strings: TLC integers are 32 bit)
      [e |-> "end", frames, pes]
    Every record is consumed; a record the statement forbids prints one @BAD line.                     *)
 EXTENDS Integers, Sequences, FiniteSets, TLC, Json, IOUtils
@@ -45,6 +46,7 @@ Pes(e) ==
   /\ Ok(e.pts = e.wantpts, e, "C09:PTS-does-not-decode-to-the-supplied-value")
   /\ Ok(e.wantdts = e.wantpts \/ (e.hasdts /\ e.dts = e.wantdts), e, "C09:DTS-does-not-decode-to-the-supplied-value")
   /\ Ok(~e.key \/ (e.rai /\ e.pcrf), e, "C09:key-frame-without-random-access-flag-and-PCR")
+  /\ Ok(e.pcr_ok, e, "C09:PCR-differs-from-the-key-frame's-decode-time")
   /\ Ok(e.prefix, e, "C09:access-unit-prefix (AUD / SPS / PPS / ADTS header)")
   /\ Ok(e.intact, e, "C09:payload-differs-from-source-frame")
   /\ UNCHANGED <<cc, npkt, seenPat, seenPmt, open>>
